@@ -13,6 +13,7 @@ PATTERNS = [
     "(h (f {1} {2}) (f {2} {1}))", "(h (f {1} {2}) (v {2}))", "(g (h ?a ?b))", "(h (g ?a) ?a)", "(h ?a (g ?a))",
     "(sum ?a {1} {2} (f {1} {2}))", "(sum ?a {1} {2} (f {2} {1}))", "(let {1} (f {1} {2}) ?b)", "(k (v {1}) {2} ?b)",
     "(lam {1} (lam {2} ?a))", "(h (lam {1} ?a) ?b)", "(h ?b (lam {1} ?a))", "(g (lam {1} (f {1} {2})))",
+    "(w ?a {1})", "(w (f {1} {2}) {1})", "(w (f {1} {2}) {2})", "(wb {1} ?a {2})", "(wb {1} (f {1} {2}) {2})",
     "(h (f3 {1} {2} {3}) ?a)", "(g (f3 {1} {2} {3}))", "(h ?a ?b) ", "(h (h ?a ?b) ?c)", "(h ?a (h ?b ?c))",
 ]
 PATTERNS = [p.strip() for p in PATTERNS]
@@ -28,14 +29,18 @@ def _parse(toks):
     op = toks[1]
     nsl, binders = gen.SIG_T[op]
     toks = toks[2:]
-    sl = [int(x) for x in toks[:nsl]]
-    toks = toks[nsl:]
+    post = op in ("w", "wb")       # pattern texts are in the LIBRARY's order: these have their direct slot after the child
+    sl = [] if post else [int(x) for x in toks[:nsl]]
+    toks = toks if post else toks[nsl:]
     ch = []
     for nb in binders:
         bd = [int(x) for x in toks[:nb]]
         toks = toks[nb:]
         t, toks = _parse(toks)
         ch.append({"bd": bd, "t": t})
+    if post:
+        sl = [int(x) for x in toks[:nsl]]
+        toks = toks[nsl:]
     assert toks[0] == ")", toks
     return {"op": op, "sl": sl, "ch": ch}, toks[1:]
 
